@@ -8,11 +8,17 @@
   two cache names.
 -/
 import PsutilModel.Proofs.C10
+import PsutilModel.Proofs.C10Front
+import PsutilModel.Proofs.C10Conc
 import PsutilModel.Model.C10Gen
 namespace Psutil.C10
 open Spec
 
 theorem cfg_good : cfg.Good := by refine ⟨?_, ?_, ?_⟩ <;> decide
+
+/-- obligation fed by the translator facts `runUnderLock` / `clearUnderLock`: the only call of
+    `run` sits inside `with _wn.lock`, the bodies of `cache_clear`/`cache_info` inside `with self.lock`. -/
+theorem cfg_good_conc : cfg.GoodConc := by refine ⟨?_, ?_⟩ <;> decide
 
 /-! ## The property -/
 
@@ -137,6 +143,187 @@ theorem C10_names_independent (h : List Op) (n : Name) :
           simp [snapsStep, ht]
         | clearAll => simp [touches] at ht
       simp [this, ih]
+
+/-! ## The public front ends: per-device and system-wide form -/
+
+/-- **C10_front_refines.** After any history of public operations (both functions, both forms,
+    any `nowrap`, `cache_clear`s), a `nowrap=True` call returns the promised per-device values of
+    the devices the platform layer handed over — as a dict (per-device form) or summed field by
+    field (system-wide form). -/
+theorem C10_front_refines (w : Name → Nat) (fh : List FOp) (fn : Fn) (perdev : Bool) (l : Listing)
+    (hw : ∀ op ∈ lowerAll cfg fh, OpW w op)
+    (hr : RawW (w (slotOf cfg fn perdev)) (platRaw cfg fn perdev l))
+    (hn : NodupKeys (platRaw cfg fn perdev l)) (hne : platRaw cfg fn perdev l ≠ []) :
+    (fstep cfg (frun cfg St.init fh) (.call ⟨fn, true, perdev, l⟩)).2
+      = shape perdev (.dict (expected (lowerAll cfg fh) (slotOf cfg fn perdev) (platRaw cfg fn perdev l))) := by
+  simp only [fstep, frun_eq]
+  rw [C10_refines w (lowerAll cfg fh) _ _ hw hr hn hne]
+
+/-- **C10_total_is_sum.** `net_io_counters(pernic=False, nowrap=True)` /
+    `disk_io_counters(perdisk=False, nowrap=True)` return the field-wise sum, over the devices
+    handed over by the platform layer, of the nowrap-adjusted per-device tuples. -/
+theorem C10_total_is_sum (w : Name → Nat) (fh : List FOp) (fn : Fn) (l : Listing)
+    (hw : ∀ op ∈ lowerAll cfg fh, OpW w op)
+    (hr : RawW (w (slotOf cfg fn false)) (platRaw cfg fn false l))
+    (hn : NodupKeys (platRaw cfg fn false l)) (hne : platRaw cfg fn false l ≠ []) :
+    (fstep cfg (frun cfg St.init fh) (.call ⟨fn, true, false, l⟩)).2
+      = .total (totalOf (expected (lowerAll cfg fh) (slotOf cfg fn false) (platRaw cfg fn false l))) := by
+  rw [C10_front_refines w fh fn false l hw hr hn hne]
+  simp only [shape, Bool.false_eq_true, if_false]
+  rw [colSums_eq_totalOf _ _ (expected_width _ _ _ _ hr hn)]
+
+/-- … and field `i` of that sum is Σ over the devices of the promised value of counter `i`. -/
+theorem C10_total_field (w : Nat) (h : List Op) (n : Name) (raw : Raw)
+    (hr : RawW w raw) (hn : NodupKeys raw) (hne : raw ≠ []) :
+    totalOf (expected h n raw) = (List.range w).map fun i => totalField (snapsOf n h) raw i :=
+  totalOf_expected w h n raw hr hn hne
+
+/-- **C10_total_monotone.** While no device vanishes (every device of the previous `nowrap=True`
+    snapshot is in the new one; new devices may show up) no field of the system-wide form decreases. -/
+theorem C10_total_monotone (w : Nat) (snaps : List Raw) (r1 r2 : Raw) (i : Nat) (hi : i < w)
+    (hw1 : RawW w r1) (hw2 : RawW w r2) (hn1 : NodupKeys r1)
+    (hstay : ∀ kv ∈ r1, r2.lookup kv.1 ≠ none) :
+    totalField snaps r1 i ≤ totalField (r1 :: snaps) r2 i := by
+  unfold totalField
+  have step1 : (r1.map fun kv => valueAt (r1 :: snaps) kv.1 i).sum
+      ≤ (r1.map fun kv => valueAt (r2 :: r1 :: snaps) kv.1 i).sum := by
+    apply sum_le_sum_pointwise
+    intro kv hm
+    have h1 := lookup_of_mem hn1 hm
+    cases h2 : r2.lookup kv.1 with
+    | none => exact absurd h2 (hstay kv hm)
+    | some v2 =>
+      have hl1 : i < kv.2.length := by rw [hw1 kv hm]; exact hi
+      have hl2 : i < v2.length := by
+        have := hw2 _ (mem_of_lookup h2); simp only at this; omega
+      exact C10_monotone snaps r1 r2 kv.1 kv.2 v2 i h1 h2 hl1 hl2
+  have step2 : (r1.map fun kv => valueAt (r2 :: r1 :: snaps) kv.1 i).sum
+      ≤ (r2.map fun kv => valueAt (r2 :: r1 :: snaps) kv.1 i).sum := by
+    have e1 : (r1.map fun kv => valueAt (r2 :: r1 :: snaps) kv.1 i)
+        = (r1.map (·.1)).map fun k => valueAt (r2 :: r1 :: snaps) k i := by simp [List.map_map]
+    have e2 : (r2.map fun kv => valueAt (r2 :: r1 :: snaps) kv.1 i)
+        = (r2.map (·.1)).map fun k => valueAt (r2 :: r1 :: snaps) k i := by simp [List.map_map]
+    rw [e1, e2]
+    apply sum_le_of_nodup_subset _ _ _ hn1
+    intro k hk
+    simp only [List.mem_map] at hk
+    obtain ⟨kv, hm, rfl⟩ := hk
+    cases h2 : r2.lookup kv.1 with
+    | none => exact absurd h2 (hstay kv hm)
+    | some v2 => exact List.mem_map.mpr ⟨_, mem_of_lookup h2, rfl⟩
+  exact Nat.le_trans step1 step2
+
+/-- the same statement for *every* pair of consecutive snapshots — false: -/
+def C10_total_monotone_Full : Prop :=
+  ∀ (snaps : List Raw) (r1 r2 : Raw) (i : Nat), NodupKeys r1 → NodupKeys r2 →
+    totalField snaps r1 i ≤ totalField (r1 :: snaps) r2 i
+
+/-- **C10_total_drops_when_device_vanishes.** The property promises monotonicity per device only:
+    when a device vanishes the system-wide figure loses that device's whole contribution
+    (`{a:100, b:50}` then `{a:100}`: 150 → 100), and when a device comes back it re-enters with its
+    raw value, without the offset it had accumulated (`{a:100}`,`{a:10}` → 110; `{}`; `{a:20}` → 20). -/
+theorem C10_total_drops_when_device_vanishes :
+    ¬ C10_total_monotone_Full
+    ∧ (fstep cfg (frun cfg St.init [.call ⟨.net, true, false, [("a", true, [100]), ("b", true, [50])]⟩])
+        (.call ⟨.net, true, false, [("a", true, [100])]⟩)).2 = .total [100]
+    ∧ (fstep cfg (frun cfg St.init [.call ⟨.net, true, false, [("a", true, [100])]⟩,
+          .call ⟨.net, true, false, [("a", true, [10])]⟩, .call ⟨.net, true, false, []⟩])
+        (.call ⟨.net, true, false, [("a", true, [20])]⟩)).2 = .total [20] := by
+  refine ⟨fun h => ?_, by decide, by decide⟩
+  have := h [] [("a", [100]), ("b", [50])] [("a", [100])] 0
+    (by unfold NodupKeys; decide) (by unfold NodupKeys; decide)
+  revert this
+  decide
+
+/-! ## The two forms of `disk_io_counters` on Linux -/
+
+/-- good configuration for the two forms: the per-disk form has its own `name`, and
+    `disk_io_counters.cache_clear()` clears it too -/
+def Cfg.FormsGood (c : Cfg) : Prop := c.formsSeparate = true ∧ c.clearPer = true
+
+/-- the front end as found at the baseline commit: one `name` for both forms of
+    `disk_io_counters`, while on Linux the system-wide form is computed from whole disks only -/
+def sharedCfg : Cfg := { emptyFeedsWrap := true, strictLess := true, namesDistinct := true }
+
+/-- **Full statement**: a disk the kernel lists at every call never sees a counter of its
+    per-disk tuple decrease from one `perdisk=True` call to the next, whatever system-wide calls
+    of the same function happen in between. -/
+def C10_present_monotone_Full (c : Cfg) : Prop :=
+  ∀ (fh : List FOp) (l1 l2 : Listing) (mid : List Listing) (k : Key) (i : Nat) (r1 r2 : Raw)
+    (v1 v2 : List Nat),
+    (∀ l ∈ l1 :: l2 :: mid, ∃ e ∈ l, e.1 = k) →
+    (fstep c (frun c St.init fh) (.call ⟨.disk, true, true, l1⟩)).2 = .dict r1 →
+    (fstep c (frun c St.init (fh ++ .call ⟨.disk, true, true, l1⟩
+        :: mid.map fun l => .call ⟨.disk, true, false, l⟩)) (.call ⟨.disk, true, true, l2⟩)).2 = .dict r2 →
+    r1.lookup k = some v1 → r2.lookup k = some v2 → tupleAt v1 i ≤ tupleAt v2 i
+
+/-- **C10_forms_share_history_counterexample.** With one shared `name` the full statement is
+    false: per-disk `{sda:100, sda1:100}`, `{sda:10, sda1:10}` (both wrapped: 110), system-wide call
+    (the Linux layer hands over `sda` only, so `sda1` looks gone), per-disk `{sda:12, sda1:12}` →
+    `sda1` is reported as 12 < 110 although the partition never went away. -/
+theorem C10_forms_share_history_counterexample : ¬ C10_present_monotone_Full sharedCfg := by
+  intro h
+  have := h [.call ⟨.disk, true, true, [("sda", true, [100]), ("sda1", false, [100])]⟩]
+    [("sda", true, [10]), ("sda1", false, [10])] [("sda", true, [12]), ("sda1", false, [12])]
+    [[("sda", true, [11]), ("sda1", false, [11])]] "sda1" 0
+    [("sda", [110]), ("sda1", [110])] [("sda", [112]), ("sda1", [12])] [110] [12]
+    (by decide) (by decide) (by decide) (by decide) (by decide)
+  revert this
+  decide
+
+/-- system-wide calls of `disk_io_counters` never touch the slot `diskPer` (the one the per-disk
+    form uses once it has its own `name`): they leave its snapshot list unchanged. -/
+theorem C10_forms_independent (c : Cfg) (h : List Op) (mid : List Listing) (nowrap : Bool) :
+    snapsOf .diskPer (h ++ lowerAll c (mid.map fun l => .call ⟨.disk, nowrap, false, l⟩))
+      = snapsOf .diskPer h := by
+  apply snapsOf_append_untouched
+  intro op hop s
+  simp only [lowerAll, List.mem_flatMap, List.mem_map] at hop
+  obtain ⟨fop, ⟨l, _, rfl⟩, hop⟩ := hop
+  simp only [lower, slotOf, Bool.and_false, Bool.false_eq_true, if_false, List.mem_singleton] at hop
+  subst hop
+  simp [snapsStep]
+
+/-! ## Concurrency -/
+
+/-- **C10_serialisable.** Any number of threads, any programs, any interleaving of their actions
+    (`sample` outside the lock; `acquire`, `load`, `store`, `release`): the shared `_WrapNumbers`
+    state and the return values handed out so far are exactly those of the *serial* execution of
+    the bodies in the order they acquired the lock — all of them, or all but the one whose thread
+    holds the lock and has not finished. Each call works on the raw sample it took at `sample`. -/
+theorem C10_serialisable (acts : List Act) (s : Sys) (h : runC cfg Sys.init acts = some s) :
+    ∃ done, (s.log = done ∨ ∃ x, s.log = done ++ [x]) ∧ serial cfg St.init done = (s.st, s.outs) :=
+  invC_committed cfg s (runC_inv cfg cfg_good_conc acts Sys.init s (invC_init cfg) h)
+
+/-- … in particular whenever the lock is free the whole log has been executed serially. -/
+theorem C10_serialisable_quiescent (acts : List Act) (s : Sys) (h : runC cfg Sys.init acts = some s)
+    (hl : s.lock = none) : serial cfg St.init s.log = (s.st, s.outs) :=
+  (runC_inv cfg cfg_good_conc acts Sys.init s (invC_init cfg) h).free hl
+
+/-- **C10_concurrent_refines.** Hence the sequential theorems apply to the lock order: the value a
+    thread gets for a `nowrap=True` call is the one promised by the history of the bodies that
+    took the lock before it. -/
+theorem C10_concurrent_refines (w : Name → Nat) (pre post : List (Nat × Op)) (t : Nat) (n : Name) (raw : Raw)
+    (hw : ∀ op ∈ pre.map (·.2), OpW w op) (hr : RawW (w n) raw) (hn : NodupKeys raw) (hne : raw ≠ []) :
+    (serial cfg St.init (pre ++ (t, .call n true raw) :: post)).2
+      = (serial cfg St.init pre).2 ++ (t, .dict (expected (pre.map (·.2)) n raw))
+          :: (serial cfg (step cfg (runAll cfg St.init (pre.map (·.2))) (.call n true raw)).1 post).2 := by
+  rw [serial_out_at, C10_refines w (pre.map (·.2)) n raw hw hr hn hne]
+
+/-- **C10_unlocked_not_serialisable.** The lock is what makes this true: with `run` outside the
+    lock two threads that both read the cache `{sda:100}` before either writes it back return 110
+    and 105, while the serial execution of the same two bodies returns 110 and 115. -/
+theorem C10_unlocked_not_serialisable :
+    let bad : Cfg := { emptyFeedsWrap := true, strictLess := true, namesDistinct := true, lockedRun := false }
+    let acts : List Act :=
+      [.sample 0 .disk [("sda", [100])], .load 0, .store 0, .release 0,
+       .sample 0 .disk [("sda", [10])], .sample 1 .disk [("sda", [5])],
+       .load 0, .load 1, .store 0, .store 1]
+    (runC bad Sys.init acts).map (·.outs)
+        = some [(0, .dict [("sda", [100])]), (0, .dict [("sda", [110])]), (1, .dict [("sda", [105])])]
+    ∧ (runC bad Sys.init acts).map (fun s => (serial bad St.init s.log).2)
+        = some [(0, .dict [("sda", [100])]), (0, .dict [("sda", [110])]), (1, .dict [("sda", [115])])] := by
+  decide
 
 /-! ## Non-vacuity and the reason `cfg_good` matters -/
 
